@@ -15,7 +15,6 @@ package metrics
 //@ func (e *Extractor) ValidateProfile
 //@   trusted
 
-//@ spec func finiteMetrics(m *domain.ProviderMetrics) bool = !isNaN(m.TokensPerSecond) && !isInf(m.TokensPerSecond)
 
 //@ func (e *Extractor) mapFieldToMetrics
 //@   property C20
@@ -40,26 +39,31 @@ package metrics
 //@   safety
 //@   requires e != nil
 
+//@ type Extractor
+//@   repinv self.profileFactory != nil
+
+//@ func NewExtractor
+//@   property C20
+//@   requires profileFactory != nil
+//@   ensures res1 == nil ==> res0 != nil && res0.profileFactory == profileFactory
+
 //@ func (e *Extractor) doExtract
 //@   property C20
 //@   safety
 //@   requires e != nil
-//@   requires e.profileFactory != nil
-//@   modifies *
 //@   ensures res == nil || finiteMetrics(res)
 
 //@ func (e *Extractor) ExtractMetrics
 //@   property C20
 //@   safety
 //@   requires e != nil
-//@   requires e.profileFactory != nil
-//@   modifies *
+//@   modifies Extractor.failures, Extractor.extractionCount
 //@   ensures res == nil || finiteMetrics(res)
 
 //@ func (e *Extractor) ExtractFromChunk
 //@   property C20
+//@   refines ports.MetricsExtractor.ExtractFromChunk
 //@   safety
 //@   requires e != nil
-//@   requires e.profileFactory != nil
-//@   modifies *
+//@   modifies Extractor.failures, Extractor.extractionCount
 //@   ensures res == nil || finiteMetrics(res)
